@@ -144,8 +144,9 @@ def lp_items(pid, tier, seed):
             add("A two-sided x P x pc x stab x 9 default singles",
                 with_profiles(structs_small(True, I.SIZES_A, (1, 2))),
                 lambda i: optvecs(True, ALL4, defaults))
-            add("HR (2,3),(3,2) two-sided x P x pc x stab x {none}",
-                I.family_HR(True, sizes=I.HR_SIZES[6:]),
+            add("HR (2,3),(3,2) two-sided x {unit,cap2,h1lq1} x pc x stab x {none}",
+                [x for x in I.family_HR(True, sizes=I.HR_SIZES[6:])
+                 if x.pq[0] in ((0, 1), (0, 2), (1, 1))],
                 lambda i: optvecs(True, ALL4, none))
 
     elif pid == "C02":
@@ -209,14 +210,13 @@ def lp_items(pid, tier, seed):
                                   none + [[("lmb", ())], [("lsb", ())],
                                           [("mincostlsb", (1, 1))],
                                           [("mincost", (1, 1))]]))
-            add("B two-sided x P4 x pc x stab x {none,maxsize,lsb,mincost 1 1}",
+            add("B two-sided x P4 x (0,0),(1,1) x {none,lsb,mincost 1 1}",
                 I.family_B(True),
-                lambda i: optvecs(True, ALL4, none + [[("maxsize", ())],
-                                                      [("lsb", ())],
-                                                      [("mincost", (1, 1))]]))
-            add("C 3x3 restricted x P3 x pc x stab x {none,maxsize}",
+                lambda i: optvecs(True, DIAG2, none + [[("lsb", ())],
+                                                       [("mincost", (1, 1))]]))
+            add("C 3x3 restricted x P3 x (0,0),(1,1) x {none,maxsize}",
                 I.family_C(True),
-                lambda i: optvecs(True, ALL4, none + [[("maxsize", ())]]))
+                lambda i: optvecs(True, DIAG2, none + [[("maxsize", ())]]))
             add("HR (2,3),(3,2) two-sided x P x pc x stab x {none, defaults}",
                 I.family_HR(True, sizes=I.HR_SIZES[6:]),
                 lambda i: optvecs(True, ALL4, none + defaults))
